@@ -179,6 +179,10 @@ func clientObjects(kind string, fine bool) func() {
 		impls := []*probe.Impl{probe.New("p"), probe.New("q"), probe.New("child")}
 		ids := make([]uint32, 3)
 		errs := make([]error, 3)
+		how := 0
+		if kind == "nested" {
+			how = vrt.ChooseFree(3, "removal: Remove / remote terminate / service Terminate")
+		}
 		vrt.Explore()
 		vrt.SetFine(fine)
 		var ws []*vrt.Thread
@@ -235,6 +239,16 @@ func clientObjects(kind string, fine bool) func() {
 			}
 			vrt.Quiesce()
 			fx.Settle(rs...)
+		} else if kind == "nested" && how == 1 {
+			// the object is terminated by its remote user
+			rmErr[0] = w.proxy(ids[0]).Terminate(ids[0])
+			vrt.Quiesce()
+		} else if kind == "nested" && how == 2 {
+			// the whole client-side service goes away
+			if err := w.svc.Terminate(); err != nil {
+				vrt.Failf("service-terminate-failed/client-side", "Terminate of the client-side service failed: %v", err)
+			}
+			vrt.Quiesce()
 		} else {
 			rmErr[0] = w.svc.Remove(ids[0])
 			vrt.Quiesce()
@@ -242,6 +256,9 @@ func clientObjects(kind string, fine bool) func() {
 		removed := map[int]bool{0: true}
 		if kind == "remove-remove" {
 			removed[1] = true
+		}
+		if kind == "nested" && how == 2 {
+			removed[1], removed[2] = true, true
 		}
 		for _, i := range live {
 			want := 0
@@ -266,11 +283,51 @@ func clientObjects(kind string, fine bool) func() {
 		}
 		vrt.Quiesce()
 		fx.Settle()
-		vrt.Observe("%s ids=%v", kind, ids)
+		vrt.Observe("%s how=%d ids=%v", kind, how, ids)
 	}
+}
+// serviceTerminate: the whole service is terminated by its host: the hook of
+// every live object runs exactly once (and not again for an object removed
+// before), nothing is invoked afterwards unless it is answered.
+func serviceTerminate() {
+	x := start()
+	x.add()
+	x.add()
+	if len(x.objs) != 2 {
+		return
+	}
+	a, b := x.objs[0], x.objs[1]
+	x.remove(a)
+	vrt.Quiesce()
+	vrt.Explore()
+	var err error
+	w := vrt.GoWorker("terminator", func() { err = x.w.Service.Terminate() })
+	vrt.Quiesce()
+	fx.Settle(w)
+	if err != nil {
+		vrt.Failf("service-terminate-failed", "Service.Terminate failed: %v", err)
+	}
+	if a.impl.Terminated != 1 {
+		vrt.Failf(fmt.Sprintf("terminate-hook-count/%d", a.impl.Terminated), "an object removed before the termination of its service had its hook run %d times", a.impl.Terminated)
+	}
+	if b.impl.Terminated != 1 || x.w.Root.Terminated != 1 {
+		vrt.Failf(fmt.Sprintf("terminate-hook-count/service-terminate/%d-%d", b.impl.Terminated, x.w.Root.Terminated), "after Service.Terminate the hooks of the live object and of the service object ran %d and %d times", b.impl.Terminated, x.w.Root.Terminated)
+	}
+	before := a.impl.Total()
+	if v, err := a.proxy.Echo(3); err == nil {
+		vrt.Failf("removed-object-answers", "echo on a removed object succeeded (returned %d) after the termination of the service", v)
+	}
+	if a.impl.Total() != before {
+		vrt.Failf("removed-object-invoked", "a call to a removed object ran the method after the termination of the service")
+	}
+	vrt.Quiesce()
+	fx.Settle()
+	vrt.Observe("hooks=%d,%d,%d", a.impl.Terminated, b.impl.Terminated, x.w.Root.Terminated)
 }
 
 func init() {
+	reg.Register(&reg.Scenario{Property: "C16", Name: "service-terminate", Body: serviceTerminate, Quick: 1, Thorough: 2,
+		Doc: "one object removed, then the host terminates the whole service: every hook ran exactly once"})
 	reg.Register(&reg.Scenario{Property: "C16", Name: "hook-removes-another-object", Body: hookCascade, Quick: 1, Thorough: 2,
 		Doc: "the termination hook of an object removes another object of the service (Remove or remote terminate): both hooks run once, the removal returns, the others answer"})
 	reg.Register(&reg.Scenario{Property: "C16", Name: "slow-termination-hook", Body: hookSlow, Quick: 1, Thorough: 2,
